@@ -200,3 +200,47 @@ func VerifH_C18_PipelineEoLClose() {
 	verifrt.Reach("A-ended")
 	verifrt.Assert(rA.m == nil && rA.err != nil, "the unanswered exchange ends with an error when the transport is closed")
 }
+
+// VerifH_C18_ReuseCloseSlowConnClose: Close() is in the middle of closing a tracked connection (which takes time)
+// when another exchange's dial completes. Whatever the dial goroutine looks at, the transport counts as closed from
+// the moment Close() started: the late connection is closed, nothing is served over it, nobody hangs.
+func VerifH_C18_ReuseCloseSlowConnClose() {
+	verifrt.Unwind(80)
+	verifrt.SchedBound(3)
+	var conns []*vNetConn
+	gate := make(chan struct{})
+	t := NewReuseConnTransport(ReuseConnOpts{DialContext: func(ctx context.Context) (net.Conn, error) {
+		if len(conns) >= 1 {
+			select {
+			case <-gate: // the second dial completes only when the harness says so
+			case <-ctx.Done():
+				return nil, errVConn
+			}
+		}
+		c := newVNetConn()
+		c.slowClose = true
+		conns = append(conns, c)
+		if len(conns) > 1 {
+			go vServe(c) // the late connection has a healthy server behind it
+		}
+		return c, nil
+	}})
+	// exchange A occupies connection 1 (its server stays silent), exchange B has to dial
+	doneA, doneB := make(chan vExRes, 1), make(chan vExRes, 1)
+	go func() { r, err := t.ExchangeContext(context.Background(), vQuery12(1, 1)); doneA <- vExRes{r, err} }()
+	verifrt.Quiesce()
+	verifrt.Assert(len(conns) == 1, "A is in flight on the first connection")
+	go func() { r, err := t.ExchangeContext(context.Background(), vQuery12(2, 2)); doneB <- vExRes{r, err} }()
+	verifrt.Quiesce()
+	go func() { close(gate) }()
+	verifrt.Assert(t.Close() == nil, "close returns")
+	verifrt.Quiesce()
+	verifrt.Reach("closed")
+	rA, rB := <-doneA, <-doneB
+	verifrt.Assert(rA.m == nil && rA.err != nil, "the in-flight exchange fails")
+	verifrt.Assert(rB.m == nil && rB.err != nil, "an exchange whose dial completes around Close fails instead of being served on a closed transport")
+	for _, c := range conns {
+		verifrt.Assert(c.closed, "no connection stays open after Close, including one whose dial completed while Close was in progress")
+		verifrt.Assert(c == conns[0] || c.nWrites == 0, "nothing is sent over a connection that joined a closed transport")
+	}
+}
